@@ -94,8 +94,9 @@ def _all():
         _v("s_pad", "' pad '", ["str"]),
         _v("s_markup", "'<&>]]>'", ["str"]),
         _v("s_uni", "'\\xe9\\u6f22\\U0001f600'", ["str"]),
-        # 14 kB with a two-byte character every 7 bytes: some 8 kB block boundary of a chunked copy falls inside one
-        _v("s_big_dense", "'\\xe9xxxxx' * 2000", ["str", "big"]),
+        # 120 kB with a two-byte character every 7 and a three-byte character every 5 bytes: one of the 8 kB (or
+        # smaller) block boundaries of a chunked copy is bound to fall inside a character
+        _v("s_big_dense", "'\\xe9xxxxx' * 9000 + '\\u6f22xx' * 12000", ["str", "big"]),
         _v("s_provx", "'prov:x'", ["str"]),
         _v("s_exx", "'ex:x'", ["str"]),
         _v("s_True", "'True'", ["str"]),
